@@ -79,4 +79,15 @@ Outcome(s) == [answered |-> Answered(s), suspect |-> ~Answered(s) /\ ~s.sendErr,
 RelayTimely(r) == r.ackAt # Never /\ r.ackAt < PT /\ r.seqOk
 RelayOutcome(r) == [relayedAcks |-> IF RelayTimely(r) THEN 1 ELSE 0,
                     nacks |-> IF r.wantNack /\ ~RelayTimely(r) THEN 1 ELSE 0]
+
+\* ---- the probed side (handlePing; the ping arm of handleConn) ---------------------
+\* responder scenario: [path ("udp" | "tcp"), named ("self" | "other" | "none": the node the ping names),
+\*                      src ("given" | "absent": source address and node inside the ping)]
+\* A ping is answered only if it names this node or nobody (a process that took over an address under
+\* another name must not answer for its predecessor); the ack echoes the ping's sequence number and goes
+\* to the source given inside the ping, else to the datagram's sender, on a stream over the stream.
+RespOutcome(p) == [acks |-> IF p.named = "other" THEN 0 ELSE 1,
+                   to   |-> IF p.named = "other" THEN "nobody"
+                            ELSE IF p.path = "tcp" THEN "stream"
+                            ELSE IF p.src = "given" THEN "source" ELSE "sender"]
 =============================================================================
